@@ -3,6 +3,7 @@ package main
 import (
 	"fmt"
 	"go/token"
+	"regexp"
 	"sort"
 	"strings"
 
@@ -18,9 +19,65 @@ func init() {
 func condDesc(ec edgeCond) string {
 	s := valDesc(ec.Cond, 0)
 	if !ec.Pol {
-		return "!(" + s + ")"
+		s = "!(" + s + ")"
 	}
+	return canonFact(normLoopIdx(ec.If.Parent(), s))
+}
+
+var reRangeIdx = regexp.MustCompile(`\(phi:t\d+\+1\)`)
+
+// normLoopIdx: the current index of a loop over a list is rendered `#i` whether the loop is a range loop (go/ssa:
+// phi starting at -1, used as phi+1) or an index loop (phi starting at 0, incremented by one).
+func normLoopIdx(fn *ssa.Function, s string) string {
+	s = reRangeIdx.ReplaceAllString(s, "#i")
+	if !strings.Contains(s, "phi:") {
+		return s
+	}
+	allInstrs(fn, func(in ssa.Instruction) {
+		ph, ok := in.(*ssa.Phi)
+		if !ok || !isIntType(ph.Type()) {
+			return
+		}
+		zero, inc := false, false
+		for _, e := range ph.Edges {
+			if k, isC := constInt(e); isC && k == 0 {
+				zero = true
+			} else if bo, isB := e.(*ssa.BinOp); isB && bo.Op == token.ADD && bo.X == ssa.Value(ph) {
+				if k, isC := constInt(bo.Y); isC && k == 1 {
+					inc = true
+				}
+			}
+		}
+		if zero && inc && len(ph.Edges) == 2 {
+			s = strings.ReplaceAll(s, "phi:"+ph.Name(), "#i")
+		}
+	})
 	return s
+}
+
+// canonFact: one canonical spelling per fact: a negated ==/!= comparison is the opposite comparison, operands of an
+// equality are ordered, redundant parentheses dropped; the conditions inside flag{…} likewise.
+func canonFact(s string) string {
+	if strings.HasPrefix(s, "!(flag{") && strings.HasSuffix(s, "})") {
+		return "!(" + canonFact(s[2:len(s)-1]) + ")"
+	}
+	if strings.HasPrefix(s, "flag{") && strings.HasSuffix(s, "}") {
+		var parts []string
+		for _, p := range strings.Split(s[5:len(s)-1], "|") {
+			if p == "" || p == "…" {
+				parts = append(parts, p)
+				continue
+			}
+			parts = append(parts, canonFact(p))
+		}
+		sort.Strings(parts)
+		return "flag{" + strings.Join(parts, "|") + "}"
+	}
+	l := canonLit(s)
+	if l[0] == '+' {
+		return l[1:]
+	}
+	return "!(" + l[1:] + ")"
 }
 
 func valDesc(v ssa.Value, depth int) string {
@@ -52,7 +109,9 @@ func valDesc(v ssa.Value, depth int) string {
 							if !ec.Pol {
 								d = "!(" + d + ")"
 							}
-							if strings.Contains(d, "phi:") || strings.HasPrefix(d, "(phi") {
+							d = canonFact(normLoopIdx(p.Parent(), d))
+							// loop bounds and "an earlier rejection was not taken" say nothing about when the flag is set
+							if strings.Contains(d, "#i") || strings.Contains(d, "phi:") || rejectingOther(ec) {
 								continue
 							}
 							cs = append(cs, d)
@@ -63,6 +122,9 @@ func valDesc(v ssa.Value, depth int) string {
 					}
 				case *ssa.Phi:
 					walk(ev)
+				default:
+					// the flag takes the value of a boolean expression: it is set when that expression holds
+					setters = append(setters, canonFact(normLoopIdx(p.Parent(), valDesc(ev, depth+1))))
 				}
 			}
 		}
@@ -87,29 +149,105 @@ type rejectSite struct {
 	ret     *ssa.Return
 	facts   []string
 	neutral []bool // the fact is a range-loop bound or "an earlier rejection was not taken"
+	ecs     []edgeCond
+}
+
+// errHelpers: same-package helpers whose error result fn hands back to its own caller (`if err := h(…); err != nil
+// { return err }`), with the call site: their rejections are fn's rejections.
+func errHelpers(fn *ssa.Function) map[*ssa.Function]*ssa.Call {
+	out := map[*ssa.Function]*ssa.Call{}
+	allInstrs(fn, func(in ssa.Instruction) {
+		call, ok := in.(*ssa.Call)
+		if !ok {
+			return
+		}
+		h := call.Call.StaticCallee()
+		if h == nil || h == fn || h.Pkg != fn.Pkg || len(h.Blocks) == 0 || h.Signature.Results().Len() != 1 {
+			return
+		}
+		rt := h.Signature.Results().At(0).Type().String()
+		if rt != "error" && !strings.HasSuffix(rt, "errchain.PlError") {
+			return
+		}
+		returned := false
+		for _, ref := range *call.Referrers() {
+			if ret, isR := ref.(*ssa.Return); isR && ret.Results[len(ret.Results)-1] == ssa.Value(call) {
+				returned = true
+			}
+			if mi, isM := ref.(*ssa.MakeInterface); isM {
+				for _, r2 := range *mi.Referrers() {
+					if _, isR := r2.(*ssa.Return); isR {
+						returned = true
+					}
+				}
+			}
+		}
+		if returned {
+			out[h] = call
+		}
+	})
+	return out
+}
+
+// translateParams: rewrite the helper's parameter names in a fact to the access paths of the actual arguments.
+func translateParams(h *ssa.Function, call *ssa.Call, s string) string {
+	for k, prm := range h.Params {
+		if k >= len(call.Call.Args) {
+			break
+		}
+		re := regexp.MustCompile(`(^|[^A-Za-z0-9_.])` + regexp.QuoteMeta(prm.Name()) + `($|[^A-Za-z0-9_])`)
+		actual := path(call.Call.Args[k])
+		for i := 0; i < 4 && re.MatchString(s); i++ {
+			s = re.ReplaceAllString(s, "${1}"+strings.ReplaceAll(actual, "$", "$$")+"${2}")
+		}
+	}
+	return s
 }
 
 func rejectSites(fn *ssa.Function) []rejectSite {
 	var out []rejectSite
-	allInstrs(fn, func(in ssa.Instruction) {
-		ret, ok := in.(*ssa.Return)
-		if !ok || ret.Block() == fn.Recover || retError(ret) != "nonnil" {
-			return
-		}
-		rs := rejectSite{ret: ret}
-		for _, ec := range controlling(ret.Block()) {
-			d := condDesc(ec)
-			rs.facts = append(rs.facts, d)
-			other := ec.If.Succs[1]
-			if !ec.Pol {
-				other = ec.If.Succs[0]
+	sitesOf := func(g *ssa.Function, via *ssa.Call) {
+		var pre rejectSite
+		if via != nil {
+			for _, ec := range controlling(via.Block()) {
+				pre.facts = append(pre.facts, condDesc(ec))
+				pre.neutral = append(pre.neutral, rejectingOther(ec) || isLoopBoundFact(condDesc(ec)))
+				pre.ecs = append(pre.ecs, ec)
 			}
-			loopBound := strings.Contains(d, "(phi:") && strings.Contains(d, "+1) < len(")
-			rs.neutral = append(rs.neutral, rejecting(other) || loopBound)
 		}
-		out = append(out, rs)
-	})
+		allInstrs(g, func(in ssa.Instruction) {
+			ret, ok := in.(*ssa.Return)
+			if !ok || ret.Block() == g.Recover || retError(ret) != "nonnil" {
+				return
+			}
+			rs := rejectSite{ret: ret, facts: append([]string{}, pre.facts...), neutral: append([]bool{}, pre.neutral...), ecs: append([]edgeCond{}, pre.ecs...)}
+			for _, ec := range controlling(ret.Block()) {
+				d := condDesc(ec)
+				if via != nil {
+					d = canonFact(translateParams(g, via, d))
+				}
+				rs.facts = append(rs.facts, d)
+				rs.neutral = append(rs.neutral, rejectingOther(ec) || isLoopBoundFact(d))
+				rs.ecs = append(rs.ecs, ec)
+			}
+			out = append(out, rs)
+		})
+	}
+	sitesOf(fn, nil)
+	hs := errHelpers(fn)
+	var hl []*ssa.Function
+	for h := range hs {
+		hl = append(hl, h)
+	}
+	sortFuncs(hl)
+	for _, h := range hl {
+		sitesOf(h, hs[h])
+	}
 	return out
+}
+
+func isLoopBoundFact(d string) bool {
+	return strings.HasPrefix(d, "#i < len(") || strings.HasPrefix(d, "!(#i >= len(")
 }
 
 // matches: every needle is found among the site's facts, and every fact of the site is a needle, an allowed
@@ -147,7 +285,11 @@ func (rs rejectSite) matches(needles, allowed []string) bool {
 // matchFact: needle may start with "=" for an exact match, otherwise substring match.
 func matchFact(fact, needle string) bool {
 	if strings.HasPrefix(needle, "=") {
-		return fact == needle[1:]
+		return fact == canonFact(needle[1:])
+	}
+	if strings.HasPrefix(needle, "~") {
+		ok, _ := regexp.MatchString(needle[1:], fact)
+		return ok
 	}
 	return strings.Contains(fact, needle)
 }
@@ -239,12 +381,12 @@ func c19Rules(c *Ctx) {
 	}
 	defSites := rejectSites(def)
 	for _, o := range []obl{
-		{"invalid parameter name", []string{"isValidParamName(params[*].Name) != nil"}, nil},
+		{"invalid parameter name", []string{"=isValidParamName(params[*].Name) != nil"}, nil},
 		{"duplicate parameter name", []string{"params[*].Name)"}, nil},
 		{"required parameter after optional", []string{"=!(params[*].Val != nil)", "=flag{params[*].Val != nil}"}, nil},
 		{"variadic together with optional", []string{"=params[*].Variable", "=flag{params[*].Val != nil}"}, nil},
 		{"second variadic parameter", []string{"=params[*].Variable", "=flag{params[*].Variable}"}, nil},
-		{"variadic parameter not last", []string{"=params[*].Variable", "+1) != (len(params)-1)"}, nil},
+		{"variadic parameter not last", []string{"=params[*].Variable", "=!(#i == (len(params)-1))"}, nil},
 	} {
 		ok := false
 		var where *ssa.Return
@@ -286,9 +428,9 @@ func c19Rules(c *Ctx) {
 	}
 	for _, o := range []obl{
 		{"named argument together with a variadic parameter", []string{"=expr.Param[*].NodeType == " + asg, "=flag{params[*].Variable}"}, nil},
-		{"name of a named argument is not an identifier", []string{"LHS[0].NodeType != " + ident}, []string{"=expr.Param[*].NodeType == " + asg}},
+		{"name of a named argument is not an identifier", []string{"=expr.Param[*].AssignmentExpr().LHS[0].NodeType != " + ident}, []string{"=expr.Param[*].NodeType == " + asg}},
 		{"positional argument after a named one", []string{"=!(expr.Param[*].NodeType == " + asg + ")", "=flag{expr.Param[*].NodeType == " + asg + "}"}, nil},
-		{"missing required parameter", []string{"=params[*].Val == nil", "=!(params[*].Variable)", "[*] == nil"}, []string{"=!((phi:"}},
+		{"missing required parameter", []string{"=params[*].Val == nil", "=!(params[*].Variable)", "~^(nil == \\S+\\[\\*\\]|\\S+\\[\\*\\] == nil)$"}, []string{"~^!?\\(?#i (<|>=) len\\("}},
 	} {
 		ok := false
 		var where *ssa.Return
@@ -316,18 +458,24 @@ func c19Rules(c *Ctx) {
 		for _, s := range passSites {
 			extra := false
 			hasUnknown, hasDup := false, false
-			ecs := controlling(s.ret.Block())
+			ecs := s.ecs
 			for i, ec := range ecs {
 				d := s.facts[i]
 				switch {
-				case s.neutral[i], d == "expr.Param[*].NodeType == "+asg:
-				case strings.HasPrefix(d, "!(flag{params[*].Name == "):
-					hasUnknown = true
-				case isIndexLookupNegative(ec, idxFns):
+				case s.neutral[i], d == canonFact("expr.Param[*].NodeType == "+asg):
+				case strings.HasPrefix(d, "!(flag{") && strings.Contains(d, "params[*].Name"):
+					// … and the flag starts every search cleared: entering the search loop it is the constant false,
+					// not a value carried over from the previous argument
+					if flagClearedBeforeLoop(ec.Cond, ec.If) {
+						hasUnknown = true
+					} else {
+						extra = true
+					}
+				case isIndexLookupNegative(ec, idxFns), searchLoopExhausted(ec):
 					hasUnknown = true
 				case isSlotNonNil(ec, idxFns):
 					hasDup = true
-				case strings.HasPrefix(d, "params[*].Name == ") && ec.Pol:
+				case strings.Contains(d, " == params[*].Name") && ((!strings.HasPrefix(d, "!(") && ec.Pol) || matchedName(ec)):
 					// inline match context of the duplicate test
 				default:
 					extra = true
@@ -356,23 +504,32 @@ func c19Rules(c *Ctx) {
 
 	// ---- (3) placement
 	var posStore, namedStore *ssa.Store
-	allInstrs(pass, func(in ssa.Instruction) {
-		s, ok := in.(*ssa.Store)
-		if !ok {
-			return
-		}
-		ia, ok := s.Addr.(*ssa.IndexAddr)
-		if !ok || !strings.HasSuffix(ia.X.Type().String(), "ast.Node") {
-			return
-		}
-		vp := path(s.Val)
-		switch {
-		case vp == "expr.Param[*]":
-			posStore = s
-		case strings.Contains(vp, ".RHS[0]"):
-			namedStore = s
-		}
-	})
+	scan := func(g *ssa.Function, via *ssa.Call) {
+		allInstrs(g, func(in ssa.Instruction) {
+			s, ok := in.(*ssa.Store)
+			if !ok {
+				return
+			}
+			ia, ok := s.Addr.(*ssa.IndexAddr)
+			if !ok || !strings.HasSuffix(ia.X.Type().String(), "ast.Node") {
+				return
+			}
+			vp := path(s.Val)
+			if via != nil {
+				vp = translateParams(g, via, vp)
+			}
+			switch {
+			case vp == "expr.Param[*]":
+				posStore = s
+			case strings.Contains(vp, ".RHS[0]"):
+				namedStore = s
+			}
+		})
+	}
+	scan(pass, nil)
+	for h, via := range errHelpers(pass) {
+		scan(h, via)
+	}
 	if posStore == nil {
 		r.Ob("PLACEMENT", "CheckPassParam positional store", t.Pos(pass.Pos()), false, "store of a positional argument into its slot not found")
 	} else {
@@ -395,7 +552,8 @@ func c19Rules(c *Ctx) {
 				continue
 			}
 			d := valDesc(iff.Cond, 0)
-			if !strings.Contains(d, "len(params)") || !(strings.Contains(d, "phi:") || strings.Contains(d, "len(expr.Param)")) {
+			d = normLoopIdx(pass, d)
+			if !strings.Contains(d, "len(params)") || !(strings.Contains(d, "phi:") || strings.Contains(d, "#i") || strings.Contains(d, "len(expr.Param)")) {
 				continue
 			}
 			bo, isB := iff.Cond.(*ssa.BinOp)
@@ -433,7 +591,7 @@ func c19Rules(c *Ctx) {
 		ia := namedStore.Addr.(*ssa.IndexAddr)
 		ok := matchedSlotIndex(ia.Index, namedStore.Block(), idxFns)
 		for _, ec := range controlling(namedStore.Block()) {
-			if bo, isB := ec.Cond.(*ssa.BinOp); isB && bo.Op == token.EQL && ec.Pol {
+			if bo, isB := ec.Cond.(*ssa.BinOp); isB && ((bo.Op == token.EQL && ec.Pol) || (bo.Op == token.NEQ && !ec.Pol)) {
 				// params[j].Name == pName with j == slot index
 				if ld, isL := bo.X.(*ssa.UnOp); isL {
 					if fa, isF := ld.X.(*ssa.FieldAddr); isF && fieldName(fa) == "Name" {
@@ -579,6 +737,106 @@ func indexLookupFns(t *Tree) map[*ssa.Function]bool {
 }
 
 // nameCmpIndex: for `params[j].Name == x` returns the SSA value j.
+// flagClearedBeforeLoop: v is a boolean flag (phi) tested at block `at`; none of the phis its value can come from is
+// carried around a loop that encloses the test — i.e. the flag is re-initialised for every search instead of keeping
+// the outcome of the previous one.
+func flagClearedBeforeLoop(v ssa.Value, at *ssa.BasicBlock) bool {
+	if u, isU := v.(*ssa.UnOp); isU && u.Op == token.NOT {
+		v = u.X
+	}
+	ph, ok := v.(*ssa.Phi)
+	if !ok {
+		return true
+	}
+	loops := naturalLoops(ph.Parent())
+	seen := map[*ssa.Phi]bool{}
+	okAll := true
+	var walk func(p *ssa.Phi)
+	walk = func(p *ssa.Phi) {
+		if seen[p] {
+			return
+		}
+		seen[p] = true
+		for _, l := range loops {
+			if l.Header == p.Block() && l.Blocks[at] {
+				// a header phi of a loop around the test: a value arriving over the back edge is last iteration's
+				for i := range p.Edges {
+					if l.Blocks[p.Block().Preds[i]] {
+						if c, isC := p.Edges[i].(*ssa.Const); !isC || c.Value == nil || c.Value.ExactString() != "false" {
+							okAll = false
+						}
+					}
+				}
+			}
+		}
+		for _, e := range p.Edges {
+			if ev, isP := e.(*ssa.Phi); isP {
+				walk(ev)
+			}
+		}
+	}
+	walk(ph)
+	return okAll
+}
+
+// matchedName: the edge establishes params[j].Name == <name> (either spelling).
+func matchedName(ec edgeCond) bool {
+	bo, ok := ec.Cond.(*ssa.BinOp)
+	return ok && nameCmpIndex(bo) != nil && ((bo.Op == token.EQL && ec.Pol) || (bo.Op == token.NEQ && !ec.Pol))
+}
+
+// searchLoopExhausted: the edge leaves a loop over the parameter list because the list is exhausted, and inside that
+// loop a parameter whose name matches always ends the function (return), never the next iteration — so the exit
+// means "no parameter has this name".
+func searchLoopExhausted(ec edgeCond) bool {
+	bo, ok := ec.Cond.(*ssa.BinOp)
+	if !ok || ec.Pol || bo.Op != token.LSS {
+		return false
+	}
+	if lp, isLen := lenOf(bo.Y); !isLen || !strings.HasSuffix(lp, "params") {
+		return false
+	}
+	fn := ec.If.Parent()
+	for _, l := range naturalLoops(fn) {
+		if l.Header != ec.If {
+			continue
+		}
+		found, ok := false, true
+		for b := range l.Blocks {
+			iff, isIf := b.Instrs[len(b.Instrs)-1].(*ssa.If)
+			if !isIf {
+				continue
+			}
+			c2, isB := iff.Cond.(*ssa.BinOp)
+			if !isB || nameCmpIndex(c2) == nil || (c2.Op != token.EQL && c2.Op != token.NEQ) {
+				continue
+			}
+			found = true
+			match := b.Succs[0]
+			if c2.Op == token.NEQ {
+				match = b.Succs[1]
+			}
+			// from the match arm the loop header is not reachable
+			seen := map[*ssa.BasicBlock]bool{}
+			st := []*ssa.BasicBlock{match}
+			for len(st) > 0 {
+				x := st[len(st)-1]
+				st = st[:len(st)-1]
+				if seen[x] {
+					continue
+				}
+				seen[x] = true
+				if x == l.Header {
+					ok = false
+				}
+				st = append(st, x.Succs...)
+			}
+		}
+		return found && ok
+	}
+	return false
+}
+
 func nameCmpIndex(bo *ssa.BinOp) ssa.Value {
 	for _, side := range []ssa.Value{bo.X, bo.Y} {
 		if ld, ok := side.(*ssa.UnOp); ok {
@@ -601,7 +859,7 @@ func matchedSlotIndex(idx ssa.Value, blk *ssa.BasicBlock, idxFns map[*ssa.Functi
 		return true
 	}
 	for _, ec := range controlling(blk) {
-		if bo, ok := ec.Cond.(*ssa.BinOp); ok && bo.Op == token.EQL && ec.Pol && nameCmpIndex(bo) == idx && idx != nil {
+		if bo, ok := ec.Cond.(*ssa.BinOp); ok && ((bo.Op == token.EQL && ec.Pol) || (bo.Op == token.NEQ && !ec.Pol)) && nameCmpIndex(bo) == idx && idx != nil {
 			return true
 		}
 	}
